@@ -196,6 +196,10 @@ def check(model: Model, report: Report) -> None:
     from . import _shapes
 
     _shapes.check_query_trees(model, report, "R01.8")
+    # slice components: each token of the 12 slice shapes reaches start / stop / step unchanged, whatever its value
+    from . import c07 as _c07
+
+    _c07.check_parse_slice(model, report, "R01.8")
     # the name a quoted name selector carries is the decoded literal: decoding problems that change the
     # decoded value (not refusals, which are C03, nor over-acceptance, which is C04/C09) select other members
     from . import _strings
